@@ -417,6 +417,50 @@ VARIANTS = [
 
 # Behaviour-preserving edits: every listed check must stay silent (exit 0) on them.  `regex` edits are applied with re.sub.
 BENIGN = [
+    dict(name="max-via-local-limit", file=SINC, properties=["C04", "C03", "C12"],
+         edits=[("""        (self.max_chunk_size as f64 * (self.resample_ratio_original * self.max_relative_ratio)
+            + 10.0) as usize""", """        let limit = self.resample_ratio_original * self.max_relative_ratio;
+        (self.max_chunk_size as f64 * limit + 10.0) as usize""")]),
+    dict(name="kernel-ctor-params-renamed", file=AVX, properties=["C01", "C02", "C03", "C15"],
+         regex=[(r"\bsinc_len\b", "taps"), (r"\boversampling_factor\b", "phases")]),
+    dict(name="make-window-one-arm-per-variant", file=WIN, properties=["C02", "C01"],
+         edits=[("""    let mut window = match windowfunc {
+        WindowFunction::BlackmanHarris | WindowFunction::BlackmanHarris2 => {
+            blackman_harris::<T>(npoints)
+        }
+        WindowFunction::Blackman | WindowFunction::Blackman2 => blackman::<T>(npoints),
+        WindowFunction::Hann | WindowFunction::Hann2 => hann::<T>(npoints),
+    };
+    match windowfunc {
+        WindowFunction::Blackman2 | WindowFunction::BlackmanHarris2 | WindowFunction::Hann2 => {
+            window.iter_mut().for_each(|y| *y = *y * *y);
+        }
+        _ => {}
+    };
+    window
+""", """    let squared = |mut window: Vec<T>| {
+        window.iter_mut().for_each(|y| *y = *y * *y);
+        window
+    };
+    match windowfunc {
+        WindowFunction::BlackmanHarris => blackman_harris::<T>(npoints),
+        WindowFunction::BlackmanHarris2 => squared(blackman_harris::<T>(npoints)),
+        WindowFunction::Blackman => blackman::<T>(npoints),
+        WindowFunction::Blackman2 => squared(blackman::<T>(npoints)),
+        WindowFunction::Hann => hann::<T>(npoints),
+        WindowFunction::Hann2 => squared(hann::<T>(npoints)),
+    }
+""")]),
+    dict(name="pack-loop-var-renamed", file=SSE, properties=["C15", "C01", "C02", "C03"],
+         regex=[(r"\belements\b", "lanes"), (r"\bpacked_elems\b", "v")]),
+    dict(name="setter-conjuncts-swapped", file=FAST, properties=["C12", "C06", "C04", "C03"], count=2,
+         edits=[("""        if (new_ratio >= self.resample_ratio_original / self.max_relative_ratio)
+            && (new_ratio <= self.resample_ratio_original * self.max_relative_ratio)
+        {""", """        if (new_ratio <= self.resample_ratio_original * self.max_relative_ratio)
+            && (new_ratio >= self.resample_ratio_original / self.max_relative_ratio)
+        {""")]),
+    dict(name="fft-ctor-max-via-if", file=SYN, properties=["C03", "C07", "C04", "C10"],
+         edits=[("        let fft_chunks = div_ceil(wanted_subsize, min_chunk_in).max(1);", "        let fft_chunks = std::cmp::max(div_ceil(wanted_subsize, min_chunk_in), 1);")]),
     dict(name="fft-out-saturating-sub", file=SYN, properties=["C03", "C04", "C05", "C07", "C10", "C01"],
          edits=[("""        let frames_needed_out = if self.chunk_size_out > self.saved_frames {
             self.chunk_size_out - self.saved_frames
